@@ -562,8 +562,8 @@ func (fe *FnEnc) frameCheck(ev *Eval, pos token.Pos) {
 		}
 		// objects allocated by this call are exempt
 		conds := []string{}
-		if nk := s.heapOwner[k]; nk != "" && s.funSeen["G0_"+nk] {
-			conds = append(conds, "(< r G0_"+nk+")")
+		if nk := s.heapOwner[k]; nk != "" {
+			conds = append(conds, "(< r "+s.ghostGet(fe.entryMem, nk, "Int")+")")
 		}
 		for _, r := range allowedRefs[k] {
 			conds = append(conds, "(not (= r "+r+"))")
